@@ -304,11 +304,13 @@ func (r *Run) runWorkers() {
 				iof += int(v.(float64))
 			case "distinct_nontrivial":
 			case "distribution":
-				for b, n := range v.(map[string]interface{}) {
-					dist[b] += int(n.(float64))
+				if m, ok := v.(map[string]interface{}); ok {
+					for b, n := range m {
+						dist[b] += int(n.(float64))
+					}
 				}
 			case "samples":
-				l := v.([]interface{})
+				l, _ := v.([]interface{}) // nil when the worker ran no case
 				if len(l) > 2 {
 					l = l[:2]
 				}
